@@ -37,6 +37,14 @@ type need struct {
 	kind ocifilter.AccessKind
 }
 
+// catalogNeed is what Repositories requires: the documented pseudo-name "*" with list access.
+var catalogNeed = need{"*", ocifilter.AccessList}
+
+// starName reports whether op names the literal repository "*" (which is not the catalog).
+func starName(op *model.Op) bool {
+	return op.Kind != "Repositories" && (op.Repo == "*" || op.From == "*")
+}
+
 // needs returns the (repository, access kind) pairs the documented mapping requires for op.
 func needs(op *model.Op) []need {
 	switch op.Kind {
@@ -51,7 +59,7 @@ func needs(op *model.Op) []need {
 	case "Tags", "Referrers":
 		return []need{{op.Repo, ocifilter.AccessList}}
 	case "Repositories":
-		return []need{{"*", ocifilter.AccessList}}
+		return []need{catalogNeed}
 	}
 	return nil // writer operations: no check of their own
 }
@@ -94,9 +102,15 @@ func newWorld(run *evid.Run, sel bool, pol policy) *world {
 }
 
 func (w *world) allowed(n need) bool {
+	return w.allowedFor(n, true)
+}
+
+// allowedFor: catalog says whether a need for "*" stands for the catalog (Repositories) or for a
+// repository literally named "*" (any other method), which Select must treat like every other name.
+func (w *world) allowedFor(n need, catalog bool) bool {
 	if w.sel {
-		if n.repo == "*" {
-			return true
+		if n == catalogNeed && catalog {
+			return true // Select lets everyone list; items are filtered
 		}
 		return w.pol(n.repo, ocifilter.AccessRead)
 	}
@@ -130,12 +144,17 @@ func (w *world) step(op *model.Op) {
 	calls := w.recd.Since(before)
 	ns := needs(op)
 	var rejected []need
+	star := ""
+	if starName(op) {
+		star = "/name=*" // own finding keys: the literal name "*" collides with the catalog pseudo-name
+		run.Count("star_name_calls", 1)
+	}
 	for _, n := range ns {
-		if !w.allowed(n) {
+		if !w.allowedFor(n, op.Kind == "Repositories") {
 			rejected = append(rejected, n)
 		}
 	}
-	run.Distinct(fmt.Sprintf("%s/%s/needs=%d/rejected=%d/%s", w.variant(), op.Kind, len(ns), len(rejected), out.Class()))
+	run.Distinct(fmt.Sprintf("%s/%s%s/needs=%d/rejected=%d/%s", w.variant(), op.Kind, star, len(ns), len(rejected), out.Class()))
 	if len(rejected) > 0 {
 		run.Count("denied/"+op.Kind, 1)
 		run.Count("denied", 1)
@@ -144,8 +163,11 @@ func (w *world) step(op *model.Op) {
 			for _, c := range calls {
 				ms = append(ms, fmt.Sprintf("%s%v", c.Method, c.Repos()))
 			}
-			run.Violation(fmt.Sprintf("backend-invoked/%s/%s", w.variant(), op.Kind),
+			run.Violation(fmt.Sprintf("backend-invoked/%s/%s%s", w.variant(), op.Kind, star),
 				fmt.Sprintf("%s: policy rejects %v but the wrapped registry was invoked: %v", op, rejected, ms), witness())
+			if star != "" {
+				return // one cause, one finding: the error that then surfaces is the backend's
+			}
 		}
 		if out.OK {
 			run.Violation(fmt.Sprintf("rejected-call-succeeded/%s/%s", w.variant(), op.Kind), fmt.Sprintf("%s succeeded although the policy rejects %v", op, rejected), witness())
@@ -256,6 +278,7 @@ func hashPolicy(seed uint64, kindSensitive bool) policy {
 func main() {
 	run := evid.Start("C12", "exploration")
 	run.SetRule("exhaustive core: every Interface method × every allow/deny assignment to the (repository, access kind) pairs it needs (both sides of a mount) × {AccessChecker, Select} × populated backend states; then random histories under random pure policies (hash of seed, name, kind) with the twin registry kept in step for allowed calls. " +
+		"The core also calls every method on the repository literally named \"*\" (allowed and rejected): only Repositories may use \"*\" as the catalog's pseudo-name. " +
 		"distinct_nontrivial = distinct (wrapper, method, pairs needed, pairs rejected, outcome class); a case is non-trivial when the policy's verdict matters (every case consults the policy).")
 	run.Assume("policies are pure functions; read and list verdicts for a repository are equal (the listing filter's access kind is not specified)")
 	run.Assume("a mount rejected on both sides may surface either side's error")
@@ -326,6 +349,20 @@ func main() {
 						run.Sample("core", map[string]any{"wrapper": w.variant(), "op": op.String(), "assignment": fmt.Sprintf("to=%v from=%v", a&1 == 0, a&2 == 0)})
 					}
 				}
+				// the repository literally named "*": not a valid name, but a name like any other to the
+				// policy; only Repositories may use "*" as the catalog's pseudo-name
+				if m != "Repositories" && m != "Upload" && st%4 == 0 {
+					for _, allowStar := range []bool{true, false} {
+						allowStar := allowStar
+						w := newWorld(run, sel, func(string, ocifilter.AccessKind) bool { return true })
+						for _, op := range prefix {
+							w.step(op)
+						}
+						w.pol = func(repo string, kind ocifilter.AccessKind) bool { return repo != "*" || allowStar }
+						run.Eval(1)
+						w.step(coreOp(rng, u, w, m, "a", "*"))
+					}
+				}
 			}
 		}
 	}
@@ -359,6 +396,7 @@ func main() {
 		run.Floor("allowed/"+m, 1, int(run.Counter("allowed/"+m)))
 	}
 	run.FloorCounter("listing_filtered_out", 10)
+	run.FloorCounter("star_name_calls", 20)
 	run.Finish()
 }
 
